@@ -11,7 +11,7 @@ import shutil
 import sys
 
 from framework import Check, Outcome, main
-from simcore import Plan, Rng, count_mutations, file_sha, log_hash, run_sim, tool
+from simcore import Plan, Rng, derive_seed, count_mutations, file_sha, log_hash, run_sim, tool
 from states import make_state
 from battery import DEBUGFS_RO_CMDS, INVOCATIONS, ro_argv
 
@@ -50,11 +50,11 @@ class C13(Check):
             o.trace = "rejected"
             return o
         img = st["img"]
-        irng = Rng(spec["dbg_seed"])
         feats = ",".join(st["cfg"]["features"])
         traces = []
         undo = None
         for inv in spec["invocations"]:
+            irng = Rng(derive_seed(spec["dbg_seed"], inv))
             if inv == "e2undo-n":
                 # make an undo file by letting a real writer record to it, then ask e2undo for a dry run
                 undo = os.path.join(wd, "undo.e2undo")
@@ -78,7 +78,7 @@ class C13(Check):
                 else:
                     faults = [(k, 0, nth, a if k == "short_r" else 1, 0)]
             pl = Plan([img], None, clock=1500005000, rand_seed=spec["dbg_seed"] >> 1, faults=faults, budget=300000)
-            r = run_sim(argv, pl, wd, tag="ro", cpu_s=25)
+            r = run_sim(argv, pl, wd, tag="ro", cpu_s=10)
             after = file_sha(img)
             nmut = count_mutations(r.events, 0) + sum(1 for e in r.events if e.kind == "L")
             nreads = sum(1 for e in r.events if e.kind == "R")
